@@ -354,6 +354,16 @@ FamOperands(dummy) ==
           ref \in TypeRefs, nx \in NextOps}
   \cup {Struct(<<Branch("none", <<"b", 1>>, <<Item("unzip", FALSE, "none", <<r1, <<"b", 21>>, r2, <<"b", 25>>>>), Item(nx, FALSE, "none", DefaultOpnds(nx))>>)>>, "none", 0, FALSE) :
           r1 \in TypeRefs, r2 \in TypeRefs, nx \in {"map", "dot_gt", "then"}}
+  \* the operand is the last thing of the branch and of the whole input (with and without trailing comma), of the first of two
+  \* branches, or stands right in front of a handler: a look-alike inside it has nothing behind it that could repair the scanner's state
+  \cup {Struct(<<Branch("none", <<"b", 1>>, <<Item(op, d, "none", <<ref>>)>>)>>, "none", 0, tr) :
+          op \in ExprOps, ref \in ExprRefs, d \in BOOLEAN, tr \in BOOLEAN}
+  \cup {Struct(<<Branch("none", ref, <<>>)>>, "none", 0, tr) : ref \in ExprRefs, tr \in BOOLEAN}
+  \cup {Struct(<<Branch("none", <<"b", 1>>, <<Item("map", FALSE, "none", <<ref>>)>>), Branch("ident", <<"b", 1>>, <<Item("then", TRUE, "none", <<ref>>)>>)>>, h, IF h = "none" THEN 0 ELSE 2, FALSE) :
+          ref \in ExprRefs, h \in {"none", "map"}}
+  \cup {Struct(<<Branch("none", <<"b", 1>>, <<Item("collect", d, "none", <<ref>>)>>)>>, "none", 0, tr) : ref \in TypeRefs, d \in BOOLEAN, tr \in BOOLEAN}
+  \cup {Struct(<<Branch("none", <<"b", 1>>, <<Item("unzip", FALSE, "none", <<r1, <<"b", 21>>, r2, <<"b", 25>>>>)>>)>>, "none", 0, tr) :
+          r1 \in TypeRefs, r2 \in {<<"b", 21>>}, tr \in BOOLEAN}
 
 \* member access: both spellings x kinds of member (method call, field, tuple index, turbofish method) x neighbours
 MemberRefs == {<<"b", 2>>, <<"b", 1>>, <<"b", 26>>, <<"b", 28>>}
